@@ -63,7 +63,7 @@ type Ctx struct {
 	lastFlush   time.Time
 }
 
-const maxViolationsKept = 40
+const maxViolationsKept = 300
 
 func NewCtx(id, tier string, shard, nshards int, seed int64, budget time.Duration) *Ctx {
 	c := &Ctx{ID: id, Tier: tier, Shard: shard, NShards: nshards, Seed: seed,
